@@ -220,6 +220,50 @@ class Fn:
         order.reverse()
         return order
 
+    def postdominators(self):
+        """pdom[b] = set of blocks post-dominating b, w.r.t. a virtual exit joined to every
+        block without successors (return, unreachable, diverging call)"""
+        if self._pdom is not None:
+            return self._pdom
+        r = sorted(self.reachable_blocks())
+        allb = set(r) | {-1}
+        dead = {b for b in r if self.blocks[b]["term"]["t"] == "unreachable"}
+        succ = {b: ([x for x in self.succ(b) if x not in dead] or [-1]) for b in r}
+        pdom = {b: set(allb) for b in r}
+        pdom[-1] = {-1}
+        changed = True
+        order = list(reversed(self._rpo()))
+        while changed:
+            changed = False
+            for b in order:
+                ss = succ[b]
+                new = set.intersection(*(pdom[s] for s in ss)) | {b}
+                if new != pdom[b]:
+                    pdom[b] = new
+                    changed = True
+        self._pdom = pdom
+        return pdom
+
+    def ipdom(self, b):
+        """immediate post-dominator (or -1 for the virtual exit)"""
+        pd = self.postdominators()
+        if b not in pd:
+            return -1
+        cands = pd[b] - {b}
+        # the immediate one is post-dominated by all others
+        for c in cands:
+            if all(o in pd[c] for o in cands):
+                return c
+        return -1
+
+    def arm_region(self, switch_bb, arm_start):
+        """blocks executed in one arm of a switch: reachable from the arm start before the
+        join point (immediate post-dominator of the switch block)"""
+        j = self.ipdom(switch_bb)
+        if arm_start == j:
+            return set()
+        return self.reach_from([arm_start], avoid={j})
+
     def dominates(self, a, b):
         d = self.dominators()
         return b in d and a in d[b]
